@@ -486,6 +486,8 @@ def run(ctx):
     import artap.utils as utils
     rng = ctx.rng
     t_start = os.times()
+    import time
+    t_wall0 = time.time()
     hist = {"op": {}, "dims": {}, "varied_coords": 0, "kept_coords": 0, "pre_outside_box": 0, "child_on_bound": 0,
             "index_error_cases": 0, "sbx_skipped_by_probability": 0, "sbx_coincident_coords": 0,
             "skipped_nan_tape": 0, "skipped_pm_zero_width": 0, "long_parent": 0,
@@ -1098,14 +1100,23 @@ def run(ctx):
     rhist = {"runs": {}, "evaluated_vectors": 0, "failed_evaluations": 0, "coordinates_on_a_bound": 0, "generation_steps": 0,
              "breed_passes": 0, "runs_aborted_by_complex_power": 0, "runs_skipped_nan": 0, "swarm_reordered_steps": 0, "rerolled_individuals": 0,
              "clipped_in_runs": 0, "children_dropped_by_duplicate_filter": 0}
+    import time
+    phase = {"operator_and_generator_cases_python": round(time.time() - t_wall0, 1)}
+    t1 = time.time()
     run_level(ctx, rhist)
+    phase["run_level_python_and_coq"] = round(time.time() - t1, 1)
+    t1 = time.time()
     dhist = {"designs": {}, "coordinates": 0}
     doe_level(ctx, dhist, {"history_op": history_op, "pick_options": pick_options, "hist": hist, "history_rebox": history_rebox,
                            "gen_vector_case": gen_vector_case})
+    phase["doe_level_python_and_coq"] = round(time.time() - t1, 1)
+    t1 = time.time()
     ctx.coq_compare("c08_op", HEADER, "op_case", "op_obs", "c08_op_run", "op_obs_eqb", cases, expected, meta,
                     shard=ctx.pick(300, 1500))
     ctx.coq_compare("c08_gen", HEADER, "gen_case", "nat", "c08_gen_run", "Nat.eqb", gcases, gexpected, gmeta,
                     shard=ctx.pick(250, 500))      # 1500 cases took 105 s CPU per coqc process: timeouts (600 s) on a loaded machine
+    phase["operator_and_generator_cases_coq"] = round(time.time() - t1, 1)
+    ctx.extra["phase_wall_s"] = phase
     ctx.extra.update({"run_histogram": rhist, "doe_histogram": dhist})
     t_end = os.times()
     ctx.extra["cpu_s"] = {"python_user_sys": round(t_end.user - t_start.user + t_end.system - t_start.system, 1),
